@@ -351,7 +351,7 @@ func c13Bounds(p *core.Program, r *core.Report, t *types.Named) {
 				for _, e := range pa[:ii] {
 					if e.Kind == "ASSIGN" && strings.HasPrefix(e.Arg, pn+"=") {
 						rhs := strings.TrimPrefix(e.Arg, pn+"=")
-						if !(strings.Contains(rhs, "math.Max(") || strings.HasPrefix(rhs, "max(")) {
+						if !(strings.Contains(rhs, "math.Max(") || strings.HasPrefix(rhs, "max(") || hasCmp(pa, pn, "<", rhs, true)) {
 							probs = append(probs, "the requested capacity "+pn+" is overwritten with `"+rhs+"`, which can be smaller than what the caller asked for: the caller then stores beyond the table")
 						}
 					}
@@ -372,13 +372,34 @@ func c13Bounds(p *core.Program, r *core.Report, t *types.Named) {
 				}
 				sz := norm(sizeExpr)
 				okSize := sz == pn
+				// the size is computed by a helper: grownCapacity(len(table), minCapacity, ...) is fine when the
+				// helper returns at least the argument in the requested capacity's position on every path
+				if call, ok := ast.Unparen(sizeExpr).(*ast.CallExpr); ok && !okSize {
+					if fn := calleeFunc(info, call); fn != nil {
+						if cfi := p.FuncOf(fn); cfi != nil && cfi.Decl.Body != nil && cfi.Pkg == fi.Pkg {
+							var cps []types.Object
+							for _, f := range cfi.Decl.Type.Params.List {
+								for _, n := range f.Names {
+									cps = append(cps, cfi.Pkg.TypesInfo.Defs[n])
+								}
+							}
+							for ai, a := range call.Args {
+								if norm(a) == pn && ai < len(cps) {
+									if ok, _ := c13ReturnsAtLeast(cfi, cps[ai]); ok {
+										okSize = true
+									}
+								}
+							}
+						}
+					}
+				}
 				if !okSize {
 					last := -1
 					for i, e := range pa[:ii] {
 						if e.Kind == "ASSIGN" && strings.HasPrefix(e.Arg, sz+"=") {
 							// a clamp to a constant upper bound under `sz > const` does not lower the guarantee we need
 							rhs := strings.TrimPrefix(e.Arg, sz+"=")
-							if pa.HasArg("COND", cc(sz, ">", rhs, true)) {
+							if hasCmp(pa, sz, ">", rhs, true) {
 								continue
 							}
 							last = i
@@ -423,6 +444,71 @@ type cmpEnv struct {
 	ints  map[types.Object]int
 	o1, o2 string
 	err   string
+	inl   *inliner // helpers returning the comparison (compareKeyVal(asc, o1, o2)) are followed with arguments substituted
+	depth int
+}
+
+// runInt interprets a helper body that returns an int.
+func (e *cmpEnv) runInt(list []ast.Stmt) (int, bool) {
+	for _, s := range list {
+		if e.err != "" {
+			return 0, true
+		}
+		switch v := s.(type) {
+		case *ast.ReturnStmt:
+			if len(v.Results) == 1 {
+				return e.evalInt(v.Results[0]), true
+			}
+		case *ast.AssignStmt:
+			if len(v.Lhs) == 1 && len(v.Rhs) == 1 {
+				if id, ok := v.Lhs[0].(*ast.Ident); ok {
+					e.ints[e.info.ObjectOf(id)] = e.evalInt(v.Rhs[0])
+					continue
+				}
+			}
+			e.err = "unsupported assignment"
+		case *ast.DeclStmt:
+			if gd, ok := v.Decl.(*ast.GenDecl); ok {
+				for _, sp := range gd.Specs {
+					vs := sp.(*ast.ValueSpec)
+					for i, nm := range vs.Names {
+						n := 0
+						if i < len(vs.Values) {
+							n = e.evalInt(vs.Values[i])
+						}
+						e.ints[e.info.Defs[nm]] = n
+					}
+				}
+			}
+		case *ast.IfStmt:
+			if v.Init != nil {
+				e.runInt([]ast.Stmt{v.Init})
+			}
+			if e.evalBool(v.Cond) {
+				if n, ret := e.runInt(v.Body.List); ret {
+					return n, true
+				}
+			} else if v.Else != nil {
+				var body []ast.Stmt
+				switch el := v.Else.(type) {
+				case *ast.BlockStmt:
+					body = el.List
+				default:
+					body = []ast.Stmt{el}
+				}
+				if n, ret := e.runInt(body); ret {
+					return n, true
+				}
+			}
+		case *ast.BlockStmt:
+			if n, ret := e.runInt(v.List); ret {
+				return n, true
+			}
+		default:
+			e.err = fmt.Sprintf("unsupported statement %T", s)
+		}
+	}
+	return 0, false
 }
 
 func (e *cmpEnv) evalInt(x ast.Expr) int {
@@ -441,6 +527,20 @@ func (e *cmpEnv) evalInt(x ast.Expr) int {
 			return -e.evalInt(v.X)
 		}
 	case *ast.CallExpr:
+		if tv, ok := e.info.Types[v.Fun]; ok && tv.IsType() && len(v.Args) == 1 {
+			return e.evalInt(v.Args[0])
+		}
+		if e.inl != nil && e.depth < 3 {
+			if body := e.inl.Body(v); body != nil {
+				e.depth++
+				n, ret := e.runInt(body.List)
+				e.depth--
+				if !ret && e.err == "" {
+					e.err = "helper " + types.ExprString(v.Fun) + " falls off its end"
+				}
+				return n
+			}
+		}
 		fn := stripSpaces(types.ExprString(v.Fun))
 		if strings.HasPrefix(fn, "compare.CompareTo") && len(v.Args) == 2 {
 			a, b := stripSpaces(types.ExprString(v.Args[0])), stripSpaces(types.ExprString(v.Args[1]))
@@ -619,7 +719,8 @@ func c13Sort(p *core.Program, r *core.Report, t *types.Named) {
 					cs = []int{-1, 0, 1}
 				}
 				for _, C := range cs {
-					env := &cmpEnv{info: info, P: P, C: C, bools: map[string]bool{"asc": asc, "childAsc": true}, ints: map[types.Object]int{}, o1: pn[0], o2: pn[1]}
+					env := &cmpEnv{info: info, P: P, C: C, bools: map[string]bool{"asc": asc, "childAsc": true}, ints: map[types.Object]int{}, o1: pn[0], o2: pn[1],
+						inl: newInliner(p, fi, func(fn *types.Func) bool { return fn.Name() == "CompareChild" })}
 					got, ret := env.run(lit.Body.List)
 					evals++
 					if env.err != "" || !ret {
@@ -665,36 +766,125 @@ func c13Sort(p *core.Program, r *core.Report, t *types.Named) {
 			}
 			r.OK("C13.sort", c, pos, d)
 		}
-		// permutation by construction
+		// permutation by construction, in the method or in the unexported helpers it is split into
 		var build, outk bool
-		ast.Inspect(fi.Decl.Body, func(n ast.Node) bool {
-			as, ok := n.(*ast.AssignStmt)
-			if !ok || len(as.Lhs) != 1 || len(as.Rhs) != 1 {
-				return true
-			}
-			l, rr := stripSpaces(types.ExprString(as.Lhs[0])), stripSpaces(types.ExprString(as.Rhs[0]))
-			if l == "table[i]" {
-				// &XKeyVal{i, this.get(i)}
-				if u, ok := as.Rhs[0].(*ast.UnaryExpr); ok {
-					if cl, ok := u.X.(*ast.CompositeLit); ok && len(cl.Elts) == 2 {
-						k, v := stripSpaces(types.ExprString(cl.Elts[0])), stripSpaces(types.ExprString(cl.Elts[1]))
-						if kv, ok := cl.Elts[0].(*ast.KeyValueExpr); ok {
-							k = stripSpaces(types.ExprString(kv.Value))
-						}
-						if kv, ok := cl.Elts[1].(*ast.KeyValueExpr); ok {
-							v = stripSpaces(types.ExprString(kv.Value))
-						}
-						if k == "i" && strings.HasSuffix(v, ".get(i)") {
-							build = true
+		bodies := []*core.FuncInfo{fi}
+		seenF := map[*core.FuncInfo]bool{fi: true}
+		for k := 0; k < len(bodies) && k < 8; k++ {
+			b := bodies[k]
+			binfo := b.Pkg.TypesInfo
+			ast.Inspect(b.Decl.Body, func(n ast.Node) bool {
+				if call, ok := n.(*ast.CallExpr); ok {
+					var id *ast.Ident
+					switch f := ast.Unparen(call.Fun).(type) {
+					case *ast.Ident:
+						id = f
+					case *ast.SelectorExpr:
+						id = f.Sel
+					}
+					if id != nil {
+						if fn, _ := binfo.Uses[id].(*types.Func); fn != nil && !fn.Exported() && fn.Pkg() == fi.Obj.Pkg() {
+							if cfi := p.FuncOf(fn); cfi != nil && cfi.Decl.Body != nil && !seenF[cfi] {
+								seenF[cfi] = true
+								bodies = append(bodies, cfi)
+							}
 						}
 					}
 				}
+				return true
+			})
+		}
+		for _, b := range bodies {
+			binfo := b.Pkg.TypesInfo
+			// loop variables: index (and value) objects of for/range statements
+			idxVars := map[types.Object]bool{}
+			valOf := map[types.Object]ast.Expr{} // range value variable -> ranged expression
+			ast.Inspect(b.Decl.Body, func(n ast.Node) bool {
+				switch v := n.(type) {
+				case *ast.ForStmt:
+					if as, ok := v.Init.(*ast.AssignStmt); ok && len(as.Lhs) == 1 {
+						if id, ok := as.Lhs[0].(*ast.Ident); ok {
+							idxVars[binfo.ObjectOf(id)] = true
+						}
+					}
+				case *ast.RangeStmt:
+					if id, ok := v.Key.(*ast.Ident); ok && id.Name != "_" {
+						idxVars[binfo.ObjectOf(id)] = true
+					}
+					if id, ok := v.Value.(*ast.Ident); ok && id.Name != "_" {
+						valOf[binfo.ObjectOf(id)] = v.X
+					}
+				}
+				return true
+			})
+			isIdx := func(e ast.Expr) types.Object {
+				if id, ok := ast.Unparen(e).(*ast.Ident); ok {
+					if o := binfo.ObjectOf(id); o != nil && idxVars[o] {
+						return o
+					}
+				}
+				return nil
 			}
-			if l == "out[i]" && rr == "table[i].key" {
-				outk = true
+			fieldNamed := func(e ast.Expr, name string) ast.Expr {
+				if sel, ok := ast.Unparen(e).(*ast.SelectorExpr); ok && sel.Sel.Name == name {
+					if fv, ok := binfo.ObjectOf(sel.Sel).(*types.Var); ok && fv.IsField() {
+						return sel.X
+					}
+				}
+				return nil
 			}
-			return true
-		})
+			ast.Inspect(b.Decl.Body, func(n ast.Node) bool {
+				as, ok := n.(*ast.AssignStmt)
+				if !ok || len(as.Lhs) != 1 || len(as.Rhs) != 1 {
+					return true
+				}
+				// pairs[i] = &KeyVal{i, this.get(i)}
+				if ix, ok := ast.Unparen(as.Lhs[0]).(*ast.IndexExpr); ok {
+					if io := isIdx(ix.Index); io != nil {
+						rhs := ast.Unparen(as.Rhs[0])
+						if u, ok := rhs.(*ast.UnaryExpr); ok && u.Op == token.AND {
+							rhs = ast.Unparen(u.X)
+						}
+						if cl, ok := rhs.(*ast.CompositeLit); ok && len(cl.Elts) == 2 {
+							k, v := cl.Elts[0], cl.Elts[1]
+							if kv, ok := k.(*ast.KeyValueExpr); ok {
+								k = kv.Value
+							}
+							if kv, ok := v.(*ast.KeyValueExpr); ok {
+								v = kv.Value
+							}
+							if isIdx(k) == io {
+								if call, ok := ast.Unparen(v).(*ast.CallExpr); ok && len(call.Args) == 1 && isIdx(call.Args[0]) == io {
+									if sel, ok := call.Fun.(*ast.SelectorExpr); ok && strings.EqualFold(sel.Sel.Name, "get") {
+										build = true
+									}
+								}
+							}
+						}
+						// out[i] = pairs[i].key  |  out[i] = kv.key (kv the range value at i)
+						if x := fieldNamed(as.Rhs[0], "key"); x != nil {
+							if ix2, ok := ast.Unparen(x).(*ast.IndexExpr); ok && isIdx(ix2.Index) == io {
+								outk = true
+							}
+							if id, ok := ast.Unparen(x).(*ast.Ident); ok && valOf[binfo.ObjectOf(id)] != nil {
+								outk = true
+							}
+						}
+					}
+				}
+				// out = append(out, kv.key) inside a range over the pairs
+				if call, ok := ast.Unparen(as.Rhs[0]).(*ast.CallExpr); ok && len(call.Args) == 2 {
+					if id, ok := call.Fun.(*ast.Ident); ok && id.Name == "append" {
+						if x := fieldNamed(call.Args[1], "key"); x != nil {
+							if vid, ok := ast.Unparen(x).(*ast.Ident); ok && valOf[binfo.ObjectOf(vid)] != nil {
+								outk = true
+							}
+						}
+					}
+				}
+				return true
+			})
+		}
 		r.Check(build && outk, "C13.perm", c, pos, "table[i] = {i, get(i)} for every i; out[i] = table[i].key", "the result is not built from one (index, value) pair per index read back by position")
 	}
 }
@@ -1046,4 +1236,94 @@ func localDefIn(info *types.Info, body *ast.BlockStmt, id *ast.Ident) ast.Expr {
 		return def
 	}
 	return nil
+}
+
+func calleeFunc(info *types.Info, call *ast.CallExpr) *types.Func {
+	var id *ast.Ident
+	switch f := ast.Unparen(call.Fun).(type) {
+	case *ast.Ident:
+		id = f
+	case *ast.SelectorExpr:
+		id = f.Sel
+	}
+	if id == nil {
+		return nil
+	}
+	fn, _ := info.Uses[id].(*types.Func)
+	return fn
+}
+
+// c13ReturnsAtLeast: on every returning path of the function the result is at least the value the
+// given parameter had on entry: it returns the parameter itself (only ever raised: p = max(..) or
+// p = c under p < c), or a local that was last set to it or was tested `local < p` false afterwards.
+func c13ReturnsAtLeast(fi *core.FuncInfo, param types.Object) (bool, string) {
+	info := fi.Pkg.TypesInfo
+	pn := param.Name()
+	norm := func(e ast.Expr) string { return stripSpaces(types.ExprString(e)) }
+	ps, over := simplePaths(fi, func(m ast.Node) []paths.Event {
+		var out []paths.Event
+		if v, ok := m.(*ast.AssignStmt); ok && len(v.Lhs) == len(v.Rhs) {
+			for i, l := range v.Lhs {
+				if _, isId := l.(*ast.Ident); isId {
+					out = append(out, paths.Event{Kind: "ASSIGN", Arg: norm(l) + "=" + norm(v.Rhs[i]), Pos: v.Pos()})
+				}
+			}
+		}
+		return out
+	})
+	if over {
+		return false, "too many paths"
+	}
+	_ = info
+	n := 0
+	for _, pa := range ps {
+		if pa.Has("PANIC") {
+			continue
+		}
+		var ret *ast.ReturnStmt
+		ri := -1
+		for i, e := range pa {
+			if e.Kind == "RET" {
+				if rs, ok := e.Node.(*ast.ReturnStmt); ok {
+					ret, ri = rs, i
+				}
+			}
+		}
+		if ret == nil || len(ret.Results) != 1 {
+			return false, "a path without a single result"
+		}
+		n++
+		for _, e := range pa[:ri] {
+			if e.Kind == "ASSIGN" && strings.HasPrefix(e.Arg, pn+"=") {
+				rhs := strings.TrimPrefix(e.Arg, pn+"=")
+				if !(strings.Contains(rhs, "math.Max(") || strings.HasPrefix(rhs, "max(") || hasCmp(pa, pn, "<", rhs, true)) {
+					return false, "the parameter is overwritten with " + rhs
+				}
+			}
+		}
+		rs := norm(ret.Results[0])
+		ok := rs == pn
+		if !ok {
+			last := -1
+			for i, e := range pa[:ri] {
+				if e.Kind == "ASSIGN" && strings.HasPrefix(e.Arg, rs+"=") {
+					rhs := strings.TrimPrefix(e.Arg, rs+"=")
+					if hasCmp(pa, rs, ">", rhs, true) {
+						continue
+					}
+					last = i
+					ok = rhs == pn
+				}
+			}
+			for i, e := range pa[:ri] {
+				if i > last && e.Kind == "COND" && e.Arg == cc(rs, "<", pn, false) {
+					ok = true
+				}
+			}
+		}
+		if !ok {
+			return false, "returns " + rs + " on a path that never establishes " + rs + " >= " + pn
+		}
+	}
+	return n > 0, ""
 }
